@@ -62,6 +62,11 @@ def cases(seed, tier):
             out.append({'stream': 'a', 'shape': shape, 'extra': extra})
     for k in ('subarray', '0d', 'unstructured', 'pla_zero', 'pla_plain', 'empty_root', 'empty_md', 'root_only_md', 'nan_dims'):
         out.append({'stream': 'p', 'kind': k})
+    # Array data of dtypes HDF5 may not take, as an Array / as a bare ndarray / as a list item: save raises or read returns the same
+    for dt in ('<U3', '<U1', 'object', 'datetime64[s]', 'timedelta64[ms]', 'S4', 'float16', 'bool', 'complex64', '>u2', 'void8', 'longdouble'):
+        for shape in ([2, 2], [3], [], [0, 2]):
+            for how in ('array', 'bare', 'list'):
+                out.append({'stream': 'd', 'dtype': dt, 'shape': shape, 'how': how})
     return out
 
 
@@ -181,6 +186,50 @@ def run_one(args):
                       and len(b.dims) == len(a.dims) and all(len(x) == len(y) and np.array_equal(np.asarray(x, dtype=float), np.asarray(y, dtype=float), equal_nan=True) for x, y in zip(a.dims, b.dims))
                       and (not a.is_stack or list(a.slicelabels) == list(b.slicelabels)))
                 return ok, f'{a.data.shape} {b.data.shape} {a.dim_names} {b.dim_names}'
+            return run_generic(build, scratch, cmp)
+        if c['stream'] == 'd':
+            def mk():
+                dt, shape = c['dtype'], tuple(c['shape'])
+                n = int(np.prod(shape)) if shape else 1
+                if dt.startswith('<U'):
+                    a = np.array(['ab', 'c', 'xyz', 'é'], dtype=dt)[np.arange(n) % 4]
+                elif dt == 'object':
+                    a = np.array([{'a': 1}, 'x', 3, None], dtype=object)[np.arange(n) % 4]
+                elif dt.startswith('datetime64'):
+                    a = (np.arange(n) * 1000).astype(dt)
+                elif dt.startswith('timedelta64'):
+                    a = (np.arange(n) * 7).astype(dt)
+                elif dt == 'S4':
+                    a = np.array([b'ab', b'c', b'wxyz', b''], dtype=dt)[np.arange(n) % 4]
+                elif dt == 'void8':
+                    a = np.zeros(n, dtype='V8')
+                elif dt == 'bool':
+                    a = (np.arange(n) % 2 == 0)
+                else:
+                    a = (np.arange(n) + 1).astype(dt)
+                return a.reshape(shape)
+            holder = {}
+            def build():
+                a = mk(); holder['a'] = a
+                if c['how'] == 'array':
+                    r = emdfile.Root(name='r'); r.tree(emdfile.Array(data=a, name='a')); return r
+                if c['how'] == 'bare':
+                    return a
+                return [a, emdfile.Node(name='n')]
+            def cmp(root, back):
+                a = holder['a']
+                try:
+                    if c['how'] == 'array':
+                        b = back if isinstance(back, emdfile.Array) else back.tree('a')
+                    elif c['how'] == 'bare':
+                        b = back if isinstance(back, emdfile.Array) else back.tree('np.array')
+                    else:
+                        b = back.tree('array_0') if not isinstance(back, emdfile.Array) else back
+                except Exception as e:
+                    return False, f'array not found in what read returned: {type(e).__name__} {e}'
+                d = np.asarray(b.data)
+                same = d.dtype == a.dtype and d.shape == a.shape and (np.array_equal(d, a, equal_nan=True) if a.dtype.kind in 'fc' else bool(np.all(d == a)))
+                return same, f'{a.dtype}{a.shape} -> {d.dtype}{d.shape}'
             return run_generic(build, scratch, cmp)
         if c['stream'] == 'p':
             k = c['kind']
